@@ -285,6 +285,43 @@ def progress (P : Params) (o n i : Nat) : Nat := min i (min (o + n) P.size) - o
 theorem adjust_eq (P : Params) (n o : Nat) : adjust P n o = min n (P.size - o) := by
   unfold adjust; split <;> omega
 
+/-- Closed form of `place` for a chunk that meets the read window. -/
+theorem place_closed (o n : Nat) (c : Chunk) (h1 : c.b ≤ c.e) (h2 : o ≤ c.e + 1)
+    (h3 : c.b ≤ o + n) :
+    (place o n c).expected + max c.b o = min (c.e + 1) (o + n) ∧
+      (place o n c).base + o = max c.b o := by
+  simp only [place, Chunk.size]
+  rcases Nat.le_total c.b o with h | h
+  · rw [Nat.max_eq_right h]
+    rcases Nat.le_total (c.e + 1) (o + n) with h' | h'
+    · rw [Nat.min_eq_left h']; omega
+    · rw [Nat.min_eq_right h']; omega
+  · rw [Nat.max_eq_left h]
+    rcases Nat.le_total (c.e + 1) (o + n) with h' | h'
+    · rw [Nat.min_eq_left h']; omega
+    · rw [Nat.min_eq_right h']; omega
+
+theorem progress_step (P : Params) (o n i : Nat) (hc : 0 < P.chunk) (ho : o ≤ P.size)
+    (hi : o < i + P.chunk) (hcond : i ≤ o + n - 1 ∧ i < P.size) :
+    (place o n ⟨i, min (i + P.chunk - 1) (P.size - 1)⟩).base = progress P o n i ∧
+    progress P o n i + (place o n ⟨i, min (i + P.chunk - 1) (P.size - 1)⟩).expected
+      = progress P o n (i + P.chunk) := by
+  have hce : min (i + P.chunk - 1) (P.size - 1) + 1 = min (i + P.chunk) P.size := by omega
+  obtain ⟨h1, h2⟩ := place_closed o n ⟨i, min (i + P.chunk - 1) (P.size - 1)⟩
+    (by simp only; omega) (by simp only; omega) (by simp only; omega)
+  simp only [hce] at h1 h2
+  generalize (place o n ⟨i, min (i + P.chunk - 1) (P.size - 1)⟩).expected = ex at *
+  generalize (place o n ⟨i, min (i + P.chunk - 1) (P.size - 1)⟩).base = ba at *
+  unfold progress
+  have e1 : min i (min (o + n) P.size) = i := by omega
+  have e2 : min (min (i + P.chunk) P.size) (o + n) = min (i + P.chunk) (min (o + n) P.size) := by
+    omega
+  have e3 : o ≤ min (i + P.chunk) (min (o + n) P.size) := by omega
+  rw [e1]
+  rw [e2] at h1
+  generalize min (i + P.chunk) (min (o + n) P.size) = E at *
+  omega
+
 theorem tiles_chunksFrom (P : Params) (hc : 0 < P.chunk) (o n : Nat) (hn : 0 < n)
     (ho : o ≤ P.size) :
     ∀ fuel i, P.size - i ≤ fuel → o < i + P.chunk →
@@ -301,13 +338,10 @@ theorem tiles_chunksFrom (P : Params) (hc : 0 < P.chunk) (o n : Nat) (hn : 0 < n
     split
     · rename_i hcond
       have ih' := ih (i + P.chunk) (by omega) (by omega)
+      obtain ⟨hb, hstep⟩ := progress_step P o n i hc ho hi hcond
       simp only [List.map_cons, Tiles]
-      refine ⟨?_, ?_⟩
-      · simp only [place, progress]; omega
-      · have : progress P o n i + (place o n ⟨i, min (i + P.chunk - 1) (P.size - 1)⟩).expected
-            = progress P o n (i + P.chunk) := by
-          simp only [place, progress, Chunk.size]; omega
-        rw [this]; exact ih'
+      refine ⟨hb, ?_⟩
+      rw [hstep]; exact ih'
     · rename_i hcond
       simp only [List.map_nil, Tiles, progress, adjust_eq]
       omega
@@ -391,6 +425,9 @@ def CacheOK (P : Params) (B : Bytes) (cache : Cache) : Prop :=
 (possibly shorter than announced: a short body must give an error, never wrong bytes). -/
 def HonestPart (B : Bytes) (p : Part) : Prop := p.data = slice B p.b p.data.length
 
+instance (B : Bytes) (p : Part) : Decidable (HonestPart B p) := by
+  unfold HonestPart; infer_instance
+
 def HonestReply (B : Bytes) : Reply → Prop
   | .fail => True
   | .parts ps => ∀ p ∈ ps, HonestPart B p
@@ -427,8 +464,8 @@ theorem Cache.get_put_some (cache : Cache) (c c' : Chunk) (d d' : Bytes)
       rw [hf] at h
       right
       by_cases hcc : c = c'
-      · subst hcc; simp [List.find?_cons] at h; exact ⟨rfl, h.symm⟩
-      · simp [List.find?_cons, hcc] at h
+      · subst hcc; simp at h; exact ⟨rfl, h.symm⟩
+      · simp [hcc] at h
 
 theorem inv_commit (P : Params) (B : Bytes) (hc : 0 < P.chunk) (s : St) (c : Chunk) (d : Bytes)
     (hs : Inv P B s) (hg : GridChunk P c) (hd : d = slice B c.b c.size) :
@@ -518,10 +555,9 @@ theorem storeParts_cons (P : Params) (s : St) (p : Part) (ps : List Part) :
         | some got =>
           let R' := storeParts P R.1 ps
           (R'.1, R'.2.map (got ++ ·)) := by
-  simp only [storeParts, walkChunks]
-  split
-  · rfl
-  · simp only
+  by_cases h : p.b % P.chunk ≠ 0
+  · simp only [storeParts, walkChunks, if_pos h]
+  · simp only [storeParts, walkChunks, if_neg h]
     rcases storeChunks s p.data (chunksFrom P p.e (P.size + 1) p.b) with ⟨s', _ | got⟩ <;> rfl
 
 theorem storeParts_spec (P : Params) (B : Bytes) (hc : 0 < P.chunk) :
@@ -597,5 +633,557 @@ theorem fetchMissing_spec (P : Params) (B : Bytes) (hc : 0 < P.chunk) (s : St)
           obtain ⟨g, hg, hgc⟩ := this
           exact ⟨g, hg, by simpa using hgc⟩
         · exact ⟨h1, h2, by intro got h; cases h⟩
+
+/-! ### classify / lookupData / readAt -/
+
+theorem classify_cons (o n : Nat) (cache : Cache) (c : Chunk) (cs : List Chunk) :
+    classify o n cache (c :: cs) =
+      match cache.get c with
+      | some d =>
+        if (slice d (place o n c).lower (place o n c).expected).length = (place o n c).expected
+        then ((c, d) :: (classify o n cache cs).1, (classify o n cache cs).2)
+        else ((classify o n cache cs).1, c :: (classify o n cache cs).2)
+      | none => ((classify o n cache cs).1, c :: (classify o n cache cs).2) := by
+  simp only [classify]
+  rcases classify o n cache cs with ⟨hs, ms⟩
+  rfl
+
+theorem classify_spec (o n : Nat) (cache : Cache) :
+    ∀ cs : List Chunk,
+      (∀ cd ∈ (classify o n cache cs).1, cache.get cd.1 = some cd.2 ∧ cd.1 ∈ cs) ∧
+      (∀ c ∈ (classify o n cache cs).2, c ∈ cs) ∧
+      (∀ c ∈ cs, (∃ d, (c, d) ∈ (classify o n cache cs).1) ∨ c ∈ (classify o n cache cs).2) := by
+  intro cs
+  induction cs with
+  | nil => simp [classify]
+  | cons c cs ih =>
+    obtain ⟨ih1, ih2, ih3⟩ := ih
+    rw [classify_cons]
+    cases hget : cache.get c with
+    | none =>
+      simp only
+      refine ⟨?_, ?_, ?_⟩
+      · intro cd hcd; exact ⟨(ih1 cd hcd).1, List.mem_cons_of_mem _ (ih1 cd hcd).2⟩
+      · intro c' hc'
+        rcases List.mem_cons.mp hc' with rfl | h
+        · exact List.mem_cons_self ..
+        · exact List.mem_cons_of_mem _ (ih2 c' h)
+      · intro c' hc'
+        rcases List.mem_cons.mp hc' with rfl | h
+        · exact Or.inr (List.mem_cons_self ..)
+        · rcases ih3 c' h with h' | h'
+          · exact Or.inl h'
+          · exact Or.inr (List.mem_cons_of_mem _ h')
+    | some d =>
+      simp only
+      split
+      · refine ⟨?_, ?_, ?_⟩
+        · intro cd hcd
+          rcases List.mem_cons.mp hcd with rfl | h
+          · exact ⟨hget, List.mem_cons_self ..⟩
+          · exact ⟨(ih1 cd h).1, List.mem_cons_of_mem _ (ih1 cd h).2⟩
+        · intro c' hc'; exact List.mem_cons_of_mem _ (ih2 c' hc')
+        · intro c' hc'
+          rcases List.mem_cons.mp hc' with rfl | h
+          · exact Or.inl ⟨d, List.mem_cons_self ..⟩
+          · rcases ih3 c' h with ⟨d', h'⟩ | h'
+            · exact Or.inl ⟨d', List.mem_cons_of_mem _ h'⟩
+            · exact Or.inr h'
+      · refine ⟨?_, ?_, ?_⟩
+        · intro cd hcd; exact ⟨(ih1 cd hcd).1, List.mem_cons_of_mem _ (ih1 cd hcd).2⟩
+        · intro c' hc'
+          rcases List.mem_cons.mp hc' with rfl | h
+          · exact List.mem_cons_self ..
+          · exact List.mem_cons_of_mem _ (ih2 c' h)
+        · intro c' hc'
+          rcases List.mem_cons.mp hc' with rfl | h
+          · exact Or.inr (List.mem_cons_self ..)
+          · rcases ih3 c' h with h' | h'
+            · exact Or.inl h'
+            · exact Or.inr (List.mem_cons_of_mem _ h')
+
+theorem lookupData_exact (P : Params) (B : Bytes) (hits got : List (Chunk × Bytes)) (c : Chunk)
+    (hh : Exact P B hits) (hg : Exact P B got)
+    (hc : (∃ d, (c, d) ∈ hits) ∨ ∃ cd ∈ got, cd.1 = c) :
+    lookupData hits got c = some (slice B c.b c.size) := by
+  unfold lookupData
+  cases hf : hits.find? (fun kv => decide (kv.1 = c)) with
+  | some kv =>
+    simp only
+    have hm := List.mem_of_find?_eq_some hf
+    have hp := List.find?_some hf
+    simp only [decide_eq_true_eq] at hp
+    rw [(hh kv hm).1, hp]
+  | none =>
+    simp only
+    rw [List.find?_eq_none] at hf
+    rcases hc with ⟨d, hd⟩ | ⟨cd, hcd, hcdc⟩
+    · exact absurd (by simp) (hf (c, d) hd)
+    · cases hf2 : got.find? (fun kv => decide (kv.1 = c)) with
+      | none =>
+        rw [List.find?_eq_none] at hf2
+        exact absurd (by simp [hcdc]) (hf2 cd hcd)
+      | some kv =>
+        have hm := List.mem_of_find?_eq_some hf2
+        have hp := List.find?_some hf2
+        simp only [decide_eq_true_eq] at hp
+        simp only [Option.map_some]
+        rw [(hg kv hm).1, hp]
+
+theorem filterMap_eq_map_of {α β} (f : α → Option β) (g : α → β) (l : List α)
+    (h : ∀ a ∈ l, f a = some (g a)) : l.filterMap f = l.map g := by
+  induction l with
+  | nil => rfl
+  | cons a l ih =>
+    rw [List.filterMap_cons, h a (List.mem_cons_self ..), List.map_cons,
+      ih (fun a' ha' => h a' (List.mem_cons_of_mem _ ha'))]
+
+theorem readAt_unfold (P : Params) (s : St) (o n : Nat) (reply : Reply) (hc : 0 < P.chunk)
+    (h : ¬ (n = 0 ∨ o > P.size)) :
+    readAt P s o n reply =
+      let cs := chunksFrom P (o + n - 1) (P.size + 1) (floorU o P.chunk)
+      let R := fetchMissing P s (classify o n s.cache cs).2 reply
+      match R.2 with
+      | none => (R.1, none)
+      | some got =>
+        (R.1, some (adjust P n o, assemble o n (List.replicate n 0)
+          (cs.filterMap (fun c => (lookupData (classify o n s.cache cs).1 got c).map
+            (fun d => (c, d)))))) := by
+  unfold readAt
+  rw [if_neg h, walk_readAt P hc]
+  simp only
+  rcases classify o n s.cache (chunksFrom P (o + n - 1) (P.size + 1) (floorU o P.chunk))
+    with ⟨hits, missing⟩
+  simp only
+  rcases fetchMissing P s missing reply with ⟨s', _ | got⟩ <;> rfl
+
+/-- Main lemma for `ReadAt`. -/
+theorem readAt_spec (P : Params) (B : Bytes) (hc : 0 < P.chunk) (hB : B.length = P.size)
+    (s : St) (hs : Inv P B s) (o n : Nat) (reply : Reply) (hr : HonestReply B reply) :
+    Inv P B (readAt P s o n reply).1 ∧ CovSub s (readAt P s o n reply).1 ∧
+    ((readAt P s o n reply).2 = none ∨
+      ∃ buf, (readAt P s o n reply).2 = some (min n (P.size - o), buf) ∧ buf.length = n ∧
+        buf.take (min n (P.size - o)) = slice B o (min n (P.size - o))) := by
+  by_cases h : n = 0 ∨ o > P.size
+  · unfold readAt
+    rw [if_pos h]
+    refine ⟨hs, CovSub.refl s, Or.inr ⟨List.replicate n 0, ?_, by simp, ?_⟩⟩
+    · have : min n (P.size - o) = 0 := by omega
+      rw [this]
+    · have : min n (P.size - o) = 0 := by omega
+      rw [this]; simp [slice]
+  · rw [readAt_unfold P s o n reply hc h]
+    simp only
+    generalize hcs : chunksFrom P (o + n - 1) (P.size + 1) (floorU o P.chunk) = cs
+    obtain ⟨hcl1, hcl2, hcl3⟩ := classify_spec o n s.cache cs
+    obtain ⟨h1, h2, h3⟩ := fetchMissing_spec P B hc s (classify o n s.cache cs).2 reply hs hr
+    generalize fetchMissing P s (classify o n s.cache cs).2 reply = R at h1 h2 h3
+    obtain ⟨s1, r1⟩ := R
+    cases r1 with
+    | none => exact ⟨h1, h2, Or.inl rfl⟩
+    | some got =>
+      simp only
+      refine ⟨h1, h2, Or.inr ?_⟩
+      obtain ⟨hex, hall⟩ := h3 got rfl
+      have hhits : Exact P B (classify o n s.cache cs).1 := by
+        intro cd hcd
+        exact hs.cacheOK cd.1 cd.2 (hcl1 cd hcd).1
+      have hdatas : cs.filterMap (fun c => (lookupData (classify o n s.cache cs).1 got c).map
+            (fun d => (c, d))) = cs.map (fun c => (c, slice B c.b c.size)) := by
+        apply filterMap_eq_map_of
+        intro c hcm
+        have : lookupData (classify o n s.cache cs).1 got c = some (slice B c.b c.size) := by
+          apply lookupData_exact P B _ _ _ hhits hex
+          rcases hcl3 c hcm with h' | h'
+          · exact Or.inl h'
+          · exact Or.inr (hall c h')
+        rw [this]; rfl
+      rw [hdatas, adjust_eq]
+      have hn : 0 < n := by omega
+      have ho : o ≤ P.size := by omega
+      have ht := tiles_readAt P hc o n hn ho
+      rw [hcs, adjust_eq] at ht
+      have := assemble_tiles B o n (min n (P.size - o)) (by omega) (by omega)
+        (cs.map (fun c => (c, slice B c.b c.size))) 0 (List.replicate n 0) (by simp)
+        (by rw [List.map_map]; exact ht)
+        (by
+          intro cd hcd
+          obtain ⟨c, _, rfl⟩ := List.mem_map.mp hcd
+          exact place_slice B o n c)
+        (by simp [slice])
+      exact ⟨_, rfl, this.2, this.1⟩
+
+theorem cacheAt_spec (P : Params) (B : Bytes) (hc : 0 < P.chunk)
+    (s : St) (hs : Inv P B s) (o n : Nat) (reply : Reply) (hr : HonestReply B reply) :
+    Inv P B (cacheAt P s o n reply).1 ∧ CovSub s (cacheAt P s o n reply).1 := by
+  unfold cacheAt
+  cases walkChunks P (floorU o P.chunk) (ceilU (o + n - 1) P.chunk - 1) with
+  | none => exact ⟨hs, CovSub.refl s⟩
+  | some cs =>
+    simp only
+    obtain ⟨h1, h2, _⟩ := fetchMissing_spec P B hc s
+      (cs.filter (fun c => (s.cache.get c).isNone)) reply hs hr
+    generalize fetchMissing P s (cs.filter (fun c => (s.cache.get c).isNone)) reply = R at h1 h2
+    obtain ⟨s1, r1⟩ := R
+    cases r1 <;> exact ⟨h1, h2⟩
+
+/-- Eviction / loss of one cache entry (the `drop` op of the driver). -/
+def dropEntry (s : St) (c : Chunk) : St :=
+  { s with cache := s.cache.filter fun kv => kv.1 ≠ c }
+
+theorem dropEntry_spec (P : Params) (B : Bytes) (s : St) (hs : Inv P B s) (c : Chunk) :
+    Inv P B (dropEntry s c) ∧ CovSub s (dropEntry s c) := by
+  refine ⟨⟨?_, hs.wf, hs.inBlob⟩, CovSub.refl s⟩
+  intro c' d h
+  apply hs.cacheOK c' d
+  simp only [dropEntry, Cache.get, List.find?_filter] at h ⊢
+  rw [Option.map_eq_some_iff] at h ⊢
+  obtain ⟨kv, hkv, rfl⟩ := h
+  have hp := List.find?_some hkv
+  simp only [decide_eq_true_eq] at hp
+  refine ⟨kv, ?_, rfl⟩
+  have hm := List.mem_of_find?_eq_some hkv
+  rw [List.find?_eq_some_iff_append] at hkv ⊢
+  obtain ⟨_, as, bs, hab, hnot⟩ := hkv
+  refine ⟨by simpa using hp.2, as, bs, hab, ?_⟩
+  intro a ha
+  have := hnot a ha
+  simp only [decide_eq_true_eq, Bool.not_eq_eq_eq_not, Bool.not_true, decide_eq_false_iff_not] at this ⊢
+  intro hac
+  exact this ⟨by rw [hac, ← hp.2]; exact hp.1, hac⟩
+
+/-! ### histories -/
+
+inductive Op
+  | read (o n : Nat) (reply : Reply)
+  | cache (o n : Nat) (reply : Reply)
+  | drop (c : Chunk)
+
+def Op.Honest (B : Bytes) : Op → Prop
+  | .read _ _ r => HonestReply B r
+  | .cache _ _ r => HonestReply B r
+  | .drop _ => True
+
+/-- One operation on the blob; for a read the triple `(o, n, result)` is reported. -/
+def stepOp (P : Params) (s : St) : Op → St × Option (Nat × Nat × Option (Nat × Bytes))
+  | .read o n r => ((readAt P s o n r).1, some (o, n, (readAt P s o n r).2))
+  | .cache o n r => ((cacheAt P s o n r).1, none)
+  | .drop c => (dropEntry s c, none)
+
+/-- State after a history. -/
+def runOps (P : Params) (s : St) (ops : List Op) : St := ops.foldl (fun s op => (stepOp P s op).1) s
+
+/-- All read results of a history, in order. -/
+def trace (P : Params) : St → List Op → List (Nat × Nat × Option (Nat × Bytes))
+  | _, [] => []
+  | s, op :: ops =>
+    match (stepOp P s op).2 with
+    | some r => r :: trace P (stepOp P s op).1 ops
+    | none => trace P (stepOp P s op).1 ops
+
+/-- A read result is exact: an error, or the right count and the right bytes. -/
+def ReadExact (P : Params) (B : Bytes) (o n : Nat) (r : Option (Nat × Bytes)) : Prop :=
+  r = none ∨ ∃ buf, r = some (min n (P.size - o), buf) ∧ buf.length = n ∧
+    buf.take (min n (P.size - o)) = slice B o (min n (P.size - o))
+
+theorem stepOp_spec (P : Params) (B : Bytes) (hc : 0 < P.chunk) (hB : B.length = P.size)
+    (s : St) (hs : Inv P B s) (op : Op) (ho : op.Honest B) :
+    Inv P B (stepOp P s op).1 ∧ CovSub s (stepOp P s op).1 ∧
+      ∀ o n r, (stepOp P s op).2 = some (o, n, r) → ReadExact P B o n r := by
+  cases op with
+  | read o n r =>
+    obtain ⟨h1, h2, h3⟩ := readAt_spec P B hc hB s hs o n r ho
+    refine ⟨h1, h2, ?_⟩
+    intro o' n' r' h
+    simp only [stepOp, Option.some.injEq, Prod.mk.injEq] at h
+    obtain ⟨rfl, rfl, rfl⟩ := h
+    exact h3
+  | cache o n r =>
+    obtain ⟨h1, h2⟩ := cacheAt_spec P B hc s hs o n r ho
+    exact ⟨h1, h2, by intro o' n' r' h; simp [stepOp] at h⟩
+  | drop c =>
+    obtain ⟨h1, h2⟩ := dropEntry_spec P B s hs c
+    exact ⟨h1, h2, by intro o' n' r' h; simp [stepOp] at h⟩
+
+theorem runOps_spec (P : Params) (B : Bytes) (hc : 0 < P.chunk) (hB : B.length = P.size) :
+    ∀ (ops : List Op) (s : St), Inv P B s → (∀ op ∈ ops, op.Honest B) →
+      Inv P B (runOps P s ops) ∧ CovSub s (runOps P s ops) ∧
+      ∀ t ∈ trace P s ops, ReadExact P B t.1 t.2.1 t.2.2 := by
+  intro ops
+  induction ops with
+  | nil => intro s hs _; exact ⟨hs, CovSub.refl s, by intro t ht; simp [trace] at ht⟩
+  | cons op ops ih =>
+    intro s hs hh
+    obtain ⟨h1, h2, h3⟩ := stepOp_spec P B hc hB s hs op (hh op (List.mem_cons_self ..))
+    obtain ⟨k1, k2, k3⟩ := ih (stepOp P s op).1 h1 (fun op' h' => hh op' (List.mem_cons_of_mem _ h'))
+    refine ⟨k1, CovSub.trans h2 k2, ?_⟩
+    intro t ht
+    unfold trace at ht
+    cases hr : (stepOp P s op).2 with
+    | none => rw [hr] at ht; exact k3 t ht
+    | some r =>
+      rw [hr] at ht
+      rcases List.mem_cons.mp ht with rfl | ht
+      · obtain ⟨o, n, r⟩ := t; exact h3 o n r hr
+      · exact k3 t ht
+
+/-- `FetchedSize` of a state satisfying the invariant counts distinct bytes, so coverage growth
+means size growth, bounded by the blob size. -/
+theorem fetchedSize_of_inv (P : Params) (B : Bytes) (s s' : St) (hs : Inv P B s) (hs' : Inv P B s')
+    (hsub : CovSub s s') :
+    totalSize s.fetched ≤ totalSize s'.fetched ∧ totalSize s'.fetched ≤ P.size := by
+  rw [totalSize_eq_count P.size _ hs.wf hs.inBlob, totalSize_eq_count P.size _ hs'.wf hs'.inBlob]
+  have h1 := countCov_mono P.size _ _ hsub
+  have h2 := countCov_le P.size s'.fetched
+  omega
+
+/-- Index form of `Tiles`. -/
+theorem Tiles.index : ∀ {a : Nat} {ps : List Place} {k : Nat}, Tiles a ps k →
+    (∀ h : 0 < ps.length, ps[0].base = a) ∧
+    (∀ j (h : j + 1 < ps.length), ps[j + 1].base = ps[j].base + ps[j].expected) ∧
+    (∀ h : ps ≠ [], (ps.getLast h).base + (ps.getLast h).expected = k) ∧ (ps = [] → a = k)
+  | a, [], k, h => by
+    unfold Tiles at h
+    exact ⟨by intro h; simp at h, by intro j h; simp at h, by intro h; exact absurd rfl h, fun _ => h⟩
+  | a, p :: ps, k, h => by
+    unfold Tiles at h
+    obtain ⟨hb, ht⟩ := h
+    obtain ⟨i1, i2, i3, i4⟩ := Tiles.index ht
+    refine ⟨fun _ => hb, ?_, ?_, by intro h; cases h⟩
+    · intro j hj
+      cases j with
+      | zero =>
+        have := i1 (by simpa using hj)
+        simp only [List.getElem_cons_succ, List.getElem_cons_zero]
+        omega
+      | succ j =>
+        simp only [List.getElem_cons_succ]
+        exact i2 j (by simpa using hj)
+    · intro _
+      cases ps with
+      | nil => simp only [List.getLast_singleton]; have := i4 rfl; omega
+      | cons q qs => rw [List.getLast_cons (by simp)]; exact i3 (by simp)
+
+/-! ### bytesWriter -/
+
+theorem writeAt_getElem? (buf : Bytes) (base : Nat) (seg : Bytes) (h : base ≤ buf.length) (j : Nat) :
+    (writeAt buf base seg)[j]? =
+      if j < base then buf[j]? else if j < base + seg.length then seg[j - base]? else buf[j]? := by
+  unfold writeAt
+  rw [List.getElem?_append, List.getElem?_append]
+  simp only [List.length_append, List.length_take, Nat.min_eq_left h, List.getElem?_take,
+    List.getElem?_drop]
+  by_cases h1 : j < base
+  · have : j < base + seg.length := by omega
+    simp [h1, this]
+  · by_cases h2 : j < base + seg.length
+    · simp [h1, h2]
+    · simp only [h1, h2, if_false]
+      congr 1; omega
+
+theorem BW.write_fields (w : BW) (p : Bytes) :
+    (w.write p).destOff = w.destOff ∧ (w.write p).current = w.current + p.length ∧
+      (w.write p).dest.length = w.dest.length := by
+  unfold BW.write
+  simp only
+  split
+  · simp
+  · split
+    · simp
+    · refine ⟨rfl, rfl, ?_⟩
+      simp only
+      rw [writeAt_length]
+      simp only [List.length_take]
+      omega
+
+theorem BW.write_getElem? (w : BW) (p : Bytes) (j : Nat) :
+    (w.write p).dest[j]? =
+      if w.current ≤ w.destOff + j ∧ w.destOff + j < w.current + p.length ∧ j < w.dest.length
+      then p[w.destOff + j - w.current]? else w.dest[j]? := by
+  unfold BW.write
+  simp only
+  split
+  · rw [if_neg (by omega)]
+  · split
+    · rw [if_neg (by omega)]
+    · rename_i h1 h2
+      simp only
+      rw [writeAt_getElem? _ _ _ (by omega)]
+      simp only [List.length_take, List.length_drop, List.getElem?_take, List.getElem?_drop]
+      rcases Nat.le_total w.current w.destOff with hle | hle
+      · have e0 : w.current - w.destOff = 0 := by omega
+        simp only [e0, Nat.zero_add, Nat.sub_zero, Nat.not_lt_zero, if_false]
+        by_cases hpe : w.destOff + w.dest.length - w.current > p.length
+        · simp only [hpe, if_true]
+          repeat' split
+          all_goals first | (exfalso; omega) | rfl | (congr 1; omega)
+        · simp only [hpe, if_false]
+          repeat' split
+          all_goals first | (exfalso; omega) | rfl | (congr 1; omega)
+      · have e0 : w.destOff - w.current = 0 := by omega
+        simp only [e0, Nat.zero_add, Nat.sub_zero]
+        by_cases hpe : w.destOff + w.dest.length - w.current > p.length
+        · simp only [hpe, if_true]
+          repeat' split
+          all_goals first | (exfalso; omega) | rfl | (congr 1; omega)
+        · simp only [hpe, if_false]
+          repeat' split
+          all_goals first | (exfalso; omega) | rfl | (congr 1; omega)
+
+theorem BW.fold_spec : ∀ (ps : List Bytes) (w : BW),
+    (ps.foldl BW.write w).destOff = w.destOff ∧
+    (ps.foldl BW.write w).current = w.current + ps.flatten.length ∧
+    (ps.foldl BW.write w).dest.length = w.dest.length ∧
+    ∀ j, (ps.foldl BW.write w).dest[j]? =
+      if w.current ≤ w.destOff + j ∧ w.destOff + j < w.current + ps.flatten.length ∧
+          j < w.dest.length
+      then ps.flatten[w.destOff + j - w.current]? else w.dest[j]? := by
+  intro ps
+  induction ps with
+  | nil =>
+    intro w
+    refine ⟨rfl, rfl, rfl, ?_⟩
+    intro j
+    rw [if_neg]; · rfl
+    simp only [List.flatten_nil, List.length_nil]; omega
+  | cons p ps ih =>
+    intro w
+    obtain ⟨f1, f2, f3⟩ := BW.write_fields w p
+    obtain ⟨i1, i2, i3, i4⟩ := ih (w.write p)
+    simp only [List.foldl_cons, List.flatten_cons, List.length_append]
+    refine ⟨by rw [i1, f1], by rw [i2, f2]; omega, by rw [i3, f3], ?_⟩
+    intro j
+    rw [i4 j, BW.write_getElem? w p j, f1, f2, f3, List.getElem?_append]
+    generalize ps.flatten = F
+    repeat' split
+    all_goals first | (exfalso; omega) | rfl | (congr 1; omega)
+
+theorem bytesWriter_fold (len destOff : Nat) (ps : List Bytes) :
+    let w := ps.foldl BW.write { dest := List.replicate len 0, destOff := destOff, current := 0 }
+    w.dest.length = len ∧
+    w.dest.take (min len (ps.flatten.length - destOff)) =
+      slice ps.flatten destOff (min len (ps.flatten.length - destOff)) ∧
+    (destOff + len ≤ ps.flatten.length → w.dest = slice ps.flatten destOff len) := by
+  obtain ⟨_, _, h3, h4⟩ := BW.fold_spec ps
+    { dest := List.replicate len 0, destOff := destOff, current := 0 }
+  simp only [List.length_replicate] at h3 h4
+  have hmain : ∀ m, m ≤ min len (ps.flatten.length - destOff) →
+      (ps.foldl BW.write { dest := List.replicate len 0, destOff := destOff, current := 0 }).dest.take m
+        = slice ps.flatten destOff m := by
+    intro m hm
+    apply List.ext_getElem?
+    intro j
+    unfold slice
+    rw [List.getElem?_take, List.getElem?_take, List.getElem?_drop, h4 j]
+    split
+    · rw [if_pos (by omega)]; congr 1
+    · rfl
+  refine ⟨h3, hmain _ (Nat.le_refl _), ?_⟩
+  intro hle
+  have := hmain len (by omega)
+  rwa [List.take_of_length_le (by omega)] at this
+
+/-! ### retry state machine of `httpFetcher.fetch` -/
+
+/-- Status 200 or 206. -/
+def isOK : Status → Bool
+  | .ok200 | .partial206 => true
+  | _ => false
+
+theorem fetchSM_le_two (st : FSt) (retry : Bool) (script : List Status) (refresh : Option Bool) :
+    (fetchSM st retry script refresh).2.2 ≤ 2 ∧
+    (fetchSM st retry script refresh).2.2 ≤ script.length := by
+  obtain ⟨sr, rd⟩ := st
+  rcases script with _ | ⟨s, _ | ⟨s2, rest⟩⟩
+  · simp [fetchSM]
+  · cases s
+    case forbidden403 => cases retry <;> cases refresh <;> simp [fetchSM]
+    case badReq400 => cases retry <;> cases sr <;> simp [fetchSM]
+    all_goals simp [fetchSM]
+  · cases s
+    case forbidden403 => cases retry <;> cases refresh <;> cases s2 <;> simp [fetchSM]
+    case badReq400 => cases retry <;> cases sr <;> cases s2 <;> simp [fetchSM]
+    all_goals simp [fetchSM]
+
+theorem fetchSM_no_retry (st : FSt) (script : List Status) (refresh : Option Bool) :
+    (fetchSM st false script refresh).2.2 ≤ 1 ∧ (fetchSM st false script refresh).1 = st := by
+  rcases script with _ | ⟨s, rest⟩
+  · simp [fetchSM]
+  · cases s <;> simp [fetchSM]
+
+theorem fetchSM_single_mono (st : FSt) (retry : Bool) (script : List Status) (refresh : Option Bool)
+    (h : st.singleRange = true) : (fetchSM st retry script refresh).1.singleRange = true := by
+  obtain ⟨sr, rd⟩ := st
+  simp only at h; subst h
+  rcases script with _ | ⟨s, _ | ⟨s2, rest⟩⟩
+  · simp [fetchSM]
+  · cases s
+    case forbidden403 => cases retry <;> cases refresh <;> simp [fetchSM]
+    case badReq400 => cases retry <;> simp [fetchSM]
+    all_goals simp [fetchSM]
+  · cases s
+    case forbidden403 => cases retry <;> cases refresh <;> cases s2 <;> simp [fetchSM]
+    case badReq400 => cases retry <;> cases s2 <;> simp [fetchSM]
+    all_goals simp [fetchSM]
+
+theorem fetchSM_body_iff (st : FSt) (retry : Bool) (script : List Status) (refresh : Option Bool) :
+    (fetchSM st retry script refresh).2.1 = .body ↔
+      ∃ s, (script.take (fetchSM st retry script refresh).2.2).getLast? = some s ∧ isOK s = true := by
+  obtain ⟨sr, rd⟩ := st
+  rcases script with _ | ⟨s, _ | ⟨s2, rest⟩⟩
+  · simp [fetchSM]
+  · cases s
+    case forbidden403 => cases retry <;> cases refresh <;> simp [fetchSM, isOK]
+    case badReq400 => cases retry <;> cases sr <;> simp [fetchSM, isOK]
+    all_goals simp [fetchSM, isOK]
+  · cases s
+    case forbidden403 => cases retry <;> cases refresh <;> cases s2 <;> simp [fetchSM, isOK]
+    case badReq400 => cases retry <;> cases sr <;> cases s2 <;> simp [fetchSM, isOK]
+    all_goals simp [fetchSM, isOK]
+
+/-- Two requests are sent only after a 403 (with retry and a successful URL refresh) or after a 400
+(with retry, not yet in single-range mode); in the latter case the mode is switched on. -/
+theorem fetchSM_two (st : FSt) (retry : Bool) (script : List Status) (refresh : Option Bool)
+    (h : (fetchSM st retry script refresh).2.2 = 2) :
+    retry = true ∧
+    ((script.head? = some .forbidden403 ∧ refresh.isSome ∧
+        (fetchSM st retry script refresh).1.singleRange = st.singleRange) ∨
+     (script.head? = some .badReq400 ∧ st.singleRange = false ∧
+        (fetchSM st retry script refresh).1 = { st with singleRange := true })) := by
+  obtain ⟨sr, rd⟩ := st
+  rcases script with _ | ⟨s, _ | ⟨s2, rest⟩⟩
+  · simp [fetchSM] at h
+  · revert h; cases s
+    case forbidden403 => cases retry <;> cases refresh <;> simp [fetchSM]
+    case badReq400 => cases retry <;> cases sr <;> simp [fetchSM]
+    all_goals simp [fetchSM]
+  · revert h; cases s
+    case forbidden403 => cases retry <;> cases refresh <;> cases s2 <;> simp [fetchSM]
+    case badReq400 => cases retry <;> cases sr <;> cases s2 <;> simp [fetchSM]
+    all_goals simp [fetchSM]
+
+/-- The url is only changed by a successful refresh after a 403. -/
+theorem fetchSM_redirect (st : FSt) (retry : Bool) (script : List Status) (refresh : Option Bool) :
+    (fetchSM st retry script refresh).1.redirected = st.redirected ∨
+      (retry = true ∧ script.head? = some .forbidden403 ∧
+        refresh = some (fetchSM st retry script refresh).1.redirected) := by
+  obtain ⟨sr, rd⟩ := st
+  rcases script with _ | ⟨s, _ | ⟨s2, rest⟩⟩
+  · simp [fetchSM]
+  · cases s
+    case forbidden403 => cases retry <;> cases refresh <;> simp [fetchSM]
+    case badReq400 => cases retry <;> cases sr <;> simp [fetchSM]
+    all_goals simp [fetchSM]
+  · cases s
+    case forbidden403 => cases retry <;> cases refresh <;> cases s2 <;> simp [fetchSM]
+    case badReq400 => cases retry <;> cases sr <;> cases s2 <;> simp [fetchSM]
+    all_goals simp [fetchSM]
+
+/-! ### fixtures for the non-vacuity examples -/
+
+/-- Blob `0..9`. -/
+def exB : Bytes := [0, 1, 2, 3, 4, 5, 6, 7, 8, 9]
+/-- Chunk size 4: chunk `[4,7]` cached, bytes `[0,7]` fetched before. -/
+def exS : St := { cache := [(⟨4, 7⟩, [4, 5, 6, 7])], fetched := [⟨0, 7⟩] }
 
 end SV.Blob
